@@ -104,7 +104,7 @@ def cases(draw, tier):
     n = len(pts)
     ys = [q[1] for q in pts]
     if max(ys) == min(ys):   # the property requires non-constant y: bend the curve
-        pts = [[q[0], q[1] + (1.0 if i == 0 else 0.0)] for i, q in enumerate(pts)]
+        pts = [[q[0], (q[1] * 2.0 + 1.0) if i == 0 else q[1]] for i, q in enumerate(pts)]   # (+1 alone is lost at 1e16)
     src = draw(st.sampled_from(['set', 'set', 'set', 'rdp', 'rdp_fixed', 'grdp']))
     case = {'family': c['family'], 'pts': pts, 'reduction': src}
     if src == 'set':
